@@ -544,6 +544,47 @@ fn guarded(label: String, f: impl FnOnce() -> String + Send + 'static) -> String
     }
 }
 
+/// `vharness long-one <fmt> <w> <cap>`: one giant record, the JSON line on stdout
+pub fn cmd_long_one(fmt: &str, w: usize, cap: usize) {
+    let line = if fmt == "fasta" { giant_fasta(1, w, cap, false, false, 0) } else { giant_fastq(w, cap, false, false, 0) };
+    println!("{}", line);
+}
+
+fn in_child(fmt: &str, w: usize, cap: usize) -> String {
+    let exe = std::env::current_exe().unwrap();
+    let mut child = match std::process::Command::new(exe).args(["long-one", fmt, &w.to_string(), &cap.to_string()]).stdout(std::process::Stdio::piped()).stderr(std::process::Stdio::null()).spawn() {
+        Ok(c) => c,
+        Err(_) => return format!("{{\"ev\":\"stuck\",\"fmt\":\"\",\"cap\":0,\"writing\":false,\"what\":\"could not start child\"}}"),
+    };
+    let t0 = std::time::Instant::now();
+    loop {
+        match child.try_wait() {
+            Ok(Some(st)) => {
+                let mut out = String::new();
+                if let Some(mut so) = child.stdout.take() {
+                    use std::io::Read as _;
+                    let _ = so.read_to_string(&mut out);
+                }
+                let line = out.lines().find(|l| l.starts_with("{\"ev\"")).map(|l| l.to_string());
+                return match (st.success(), line) {
+                    (true, Some(l)) => l,
+                    // the process died (abort on an impossible allocation, stack overflow, ...): the reader did not survive this input
+                    _ => format!("{{\"ev\":\"giant\",\"fmt\":\"{}\",\"m\":1,\"w\":{},\"alt\":0,\"extra\":0,\"cap\":{},\"crlf\":false,\"via_set\":false,\"panic\":true,\"died\":true}}", fmt, w, cap),
+                };
+            }
+            Ok(None) => {
+                if t0.elapsed().as_secs() > 60 {
+                    let _ = child.kill();
+                    let _ = child.wait();
+                    return format!("{{\"ev\":\"stuck\",\"fmt\":\"\",\"cap\":0,\"writing\":false,\"what\":\"giant {} w={} cap={}\"}}", fmt, w, cap);
+                }
+                std::thread::sleep(std::time::Duration::from_millis(20));
+            }
+            Err(_) => return format!("{{\"ev\":\"stuck\",\"fmt\":\"\",\"cap\":0,\"writing\":false,\"what\":\"child wait failed\"}}"),
+        }
+    }
+}
+
 pub fn cmd_long(out: &str, _seed: u64, thorough: bool) {
     let mut f = std::io::BufWriter::new(std::fs::File::create(out).unwrap());
     let mut cases = 0usize;
@@ -622,10 +663,12 @@ pub fn cmd_long(out: &str, _seed: u64, thorough: bool) {
         }
     }
     // records of 9 MiB: the default policy has to grow the buffer beyond 8 MiB, where it stops doubling
+    // (each in a child process: a policy that answers with an absurd size makes the allocator abort the process)
     for cap in [65536usize, 8 << 20] {
-        writeln!(f, "{}", guarded(format!("giant fasta 9 MiB cap={}", cap), move || giant_fasta(1, 9 << 20, cap, false, false, 0))).unwrap();
-        writeln!(f, "{}", guarded(format!("giant fastq 9 MiB cap={}", cap), move || giant_fastq(9 << 20, cap, false, false, 0))).unwrap();
-        cases += 2;
+        for fmt in ["fasta", "fastq"] {
+            writeln!(f, "{}", in_child(fmt, 9 << 20, cap)).unwrap();
+            cases += 1;
+        }
     }
     {
         let rows = std::panic::catch_unwind(policy_table);
